@@ -316,9 +316,11 @@ class NeuronProbe:
             v[e] = val
         self.n.voltage = torch.tensor(v, dtype=torch.float32).reshape((self.batch,) + self.shape)
 
-    def step(self, inputs: torch.Tensor):
+    def step(self, inputs: torch.Tensor, freeze: str | None = None):
         """one forward() call; returns the per-element events (or None once a NaN was seen:
-        the property is quantified over NaN-free executions)"""
+        the property is quantified over NaN-free executions).  `freeze` steps an adapting neuron with its
+        adaptations frozen for this call: "false" passes adapt=False, "eval" switches the module to eval mode and
+        passes adapt=None (the threshold in force is still equilibrium + current adaptations)."""
         n, cls = self.n, self.cls
         v0 = self.voltages()
         r0 = self.refracs()
@@ -334,7 +336,15 @@ class NeuronProbe:
         if np.isnan(vint).any() or np.isnan(vint0).any() or np.isnan(v0).any():
             self.nan_seen = True
             return None
-        ret = forward(n, cls, inputs, self.lock, self.adapt)
+        if freeze == "eval" and cls in ADAPTIVE:
+            was = n.training
+            n.eval()
+            try:
+                ret = forward(n, cls, inputs, self.lock, None)
+            finally:
+                n.train(was)
+        else:
+            ret = forward(n, cls, inputs, self.lock, False if freeze == "false" else self.adapt)
         spk = ret.detach().reshape(-1).numpy().astype(bool)
         attr = n.spike.detach().reshape(-1).numpy().astype(bool)
         v1 = self.voltages()
